@@ -8,7 +8,7 @@ def gen_history(rng, profile=None, max_ops=40):
     p = {'pressure': 0.6, 'identity': 0.3, 'affinity': 0.4, 'failure': 0.4, 'partitions': 0.3,
          'lease': 0.2, 'traits': 0.3, 'alloc': 0.5, 'raw_remove': 0.1, 'renew': 0.1, 'once': 0.1,
          'blacklist': 0.15, 'maxutil': 0.15, 'prio0': 0.15, 'deep': 0.0, 'move': 0.03, 'few_shapes': 0.0,
-         'scenarios': 0.0, 'many_allocs': 0, 'sparse_demand': 0.0}
+         'scenarios': 0.0, 'many_allocs': 0, 'sparse_demand': 0.0, 'frozen': 0.25}
     if profile:
         p.update(profile)
     ops = []
@@ -162,7 +162,7 @@ def gen_history(rng, profile=None, max_ops=40):
             ops.append(['Tick', now[0]])
         elif r < 0.50 + 0.16 * p['failure'] / 0.4 and srv:
             n = rng.choice(srv)
-            stt = rng.choice([0, 1, 1, 2])
+            stt = 2 if rng.random() < p['frozen'] else rng.choice([0, 1, 1])
             since = now[0] if rng.random() < 0.8 else now[0] - rng.randint(0, 5)
             st['servers'][n]['state'] = stt
             ops.append(['SetState', n, stt, since])
